@@ -45,8 +45,8 @@ def scriptedChunks (io : Nat) : Nat → List Nat → List Nat × Nat
 /-- reads of `io` bytes until the body is exhausted (`fuel` bounds the loop; `rem` suffices) -/
 def fullChunks (io : Nat) : Nat → Nat → List Nat
   | 0, _ => []
-  | _ + 1, 0 => []
-  | fuel + 1, rem => if io = 0 then [] else min io rem :: fullChunks io fuel (rem - min io rem)
+  | fuel + 1, rem =>
+    if rem = 0 ∨ io = 0 then [] else min io rem :: fullChunks io fuel (rem - min io rem)
 
 /-- the chunk lengths one attempt hands to `_handle_io`, in order -/
 def attemptChunks (io len : Nat) (a : Attempt) : List Nat :=
@@ -62,7 +62,7 @@ def chunkEvents : Nat → List Nat → List Event
 /-- The empty body: `DownloadChunkIterator` yields the single empty chunk of the first read
 (so an empty object is still written once); no progress is reported for zero bytes. -/
 def attemptEvents (io start len : Nat) (a : Attempt) : List Event :=
-  if len = 0 ∧ a.ending = .eof then [.write start 0]
+  if len = 0 then (if a.script ≠ [] ∨ a.ending = .eof then [.write start 0] else [])
   else chunkEvents start (attemptChunks io len a)
 
 /-- `GetObjectTask._main`: up to `maxAttempts` requests. -/
